@@ -103,9 +103,14 @@ Definition op_expr (o : op) (e : expr) : option expr :=
 (* ---------------------------------------------------------------------------------------- *)
 (* arrays with a dtype, NumPy operators over an abstract element semantics                    *)
 (* ---------------------------------------------------------------------------------------- *)
-Record arr (A D : Type) := mkarr { a_dt : D; a_rows : list (list A) }.
-Arguments mkarr {A D} _ _.
+(* a 2-D ndarray: dtype, number of columns (shape[1]) and the rows (shape[0] = their number).  The column
+   count is carried explicitly because a block of 0 rows still has a shape (0, c) -- an EMPTY row
+   selection of a derived reader must come back with the dtype and the column count the deferred
+   operations give it, exactly like a non-empty one. *)
+Record arr (A D : Type) := mkarr { a_dt : D; a_nc : Z; a_rows : list (list A) }.
+Arguments mkarr {A D} _ _ _.
 Arguments a_dt {A D} _.
+Arguments a_nc {A D} _.
 Arguments a_rows {A D} _.
 
 Section Sem.
@@ -118,12 +123,15 @@ Notation array := (arr A D).
 Definition np_map (c : code) (x : array) : option array :=
   match dsem c (a_dt x) with
   | None => None
-  | Some d => option_map (mkarr d) (mapM (mapM (sem c (a_dt x))) (a_rows x))
+  | Some d => option_map (mkarr d (a_nc x)) (mapM (mapM (sem c (a_dt x))) (a_rows x))
   end.
 
-(* arr[:, sel] *)
+(* arr[:, sel]: the selector is resolved against shape[1] (an out-of-range column raises whatever the
+   number of rows, 0 included); the result has one column per resolved index; on rows of length
+   shape[1] this is C01's select_cols (Proofs.v: np_cols_select_cols) *)
 Definition np_cols (sel : colsel) (x : array) : option array :=
-  option_map (mkarr (a_dt x)) (select_cols sel (a_rows x)).
+  bind (col_indices (a_nc x) sel) (fun idx =>
+    option_map (mkarr (a_dt x) (zlen idx)) (mapM (fun row => gather row idx) (a_rows x))).
 
 (* _apply_op *)
 Definition apply_op (o : op) (x : array) : option array :=
@@ -139,21 +147,23 @@ Fixpoint apply_ops (ops : list op) (x : array) : option array :=
   | o :: r => bind (apply_op o x) (apply_ops r)
   end.
 
-(* np.atleast_2d(x[it]) of a 2-D array (dtype kept) *)
+(* np.atleast_2d(x[it]) of a 2-D array (dtype and column count kept; possibly 0 rows) *)
 Definition index_arr (x : array) (it : item) : option array :=
-  option_map (mkarr (a_dt x)) (np_index (a_rows x) it).
+  option_map (mkarr (a_dt x) (a_nc x)) (np_index (a_rows x) it).
 
 (* ---- BaseEphysReader.__getitem__ of a reader whose _ops is [ops] ---- *)
 Variable rows : item -> option (list (list A)).   (* the per-part reads + np.vstack (C01) *)
 Variable d0 : D.                                  (* sample dtype of the recording *)
+Variable c0 : Z.                                  (* n_channels: every part read is a (k, c0) block, k >= 0 *)
 
 Inductive gres :=
 | GRows (x : array)               (* a 2-D block *)
 | GReader (ops : list op).        (* reader[:, cols]: a clone carrying one more op *)
 
-(* the loop over _get_subitems, np.vstack, then self._apply_ops(out) *)
+(* the loop over _get_subitems, np.vstack, then self._apply_ops(out) -- unconditionally, also when the
+   stacked block has 0 rows *)
 Definition read_rows (ops : list op) (it : item) : option array :=
-  bind (rows it) (fun R => apply_ops ops (mkarr d0 R)).
+  bind (rows it) (fun R => apply_ops ops (mkarr d0 c0 R)).
 
 (* item is a 2-tuple: self = self._append_op('cols', cols) first, then either return the clone
    (item[0] is exactly slice(None)) or read with the extended op list *)
